@@ -93,8 +93,7 @@ Lemma dict_get_lift ln hs :
   match find (fun kv => bytes_eqb (lower (fst kv)) ln) hs with Some kv => Some kv | None => None end.
 Proof.
   induction hs as [|[k v] t IH]; [reflexivity|]. cbn [map lift1 fst snd dict_get find].
-  destruct (bytes_eqb_spec ln (lower k)) as [E|E]; destruct (bytes_eqb_spec (lower k) ln) as [E'|E']; try congruence.
-  exact IH.
+  destruct (bytes_eqb_spec ln (lower k)) as [E|E]; destruct (bytes_eqb_spec (lower k) ln) as [E'|E']; congruence.
 Qed.
 
 (* ---- the parser methods in terms of the field list ---- *)
@@ -116,7 +115,7 @@ Qed.
 Lemma add_header_view p hs name v : U p = map lift1 hs -> U (add_header p name v) = map lift1 (set_field name v hs).
 Proof.
   intros E. unfold add_header, add_header_d. cbn [headers set_headers unopt].
-  fold (unopt (headers p)). rewrite E. apply dict_set_lift.
+  rewrite <- dict_set_lift. f_equal. exact E.
 Qed.
 
 Lemma del_header_view p hs key : U p = map lift1 hs -> NoDup (lkeys hs) ->
@@ -225,6 +224,10 @@ Qed.
 (* ===================================================================================== *)
 (* THEOREM 1: what _queue_request_for_upstream emits, for every parser state               *)
 
+Lemma render_forward_join m t v hs b :
+  (m ++ SP :: t ++ SP :: v) ++ CRLF ++ header_lines hs ++ CRLF ++ b = render_forward m t v hs b.
+Proof. unfold render_forward. rewrite <- app_assoc. cbn [app]. rewrite <- app_assoc. cbn [app]. reflexivity. Qed.
+
 Lemma build_view ua dis p hs :
   is_request (ty p) = true -> truthy (method p) = true -> truthy (version p) = true ->
   U p = map lift1 hs -> NoDup (lkeys hs) ->
@@ -235,12 +238,12 @@ Lemma build_view ua dis p hs :
 Proof.
   intros Ht Hm Hv E Hn. unfold build. rewrite Hm, Hv, Ht. cbn [andb negb].
   rewrite get_body_or_chunks_wire. cbn [bind]. rewrite (rebuilt_of_view dis p hs E Hn).
-  unfold build_http_request, build_http_pkt, pkt_headers, request_headers, render_forward, recompute_cl, path_or_slash.
+  unfold build_http_request, build_http_pkt, pkt_headers, request_headers, recompute_cl.
   rewrite join_sp3, wire_or_empty. cbn [negb andb].
-  set (fs := filter _ hs). rewrite andb_false_r.
+  set (fs := filter _ hs). rewrite andb_false_r. rewrite render_forward_join. unfold path_or_slash.
   destruct (truthy (wire_body p) && negb (has_key_ci TRANSFER_ENCODING fs)).
-  - rewrite dict_set_header_key. unfold bytes_of_N. rewrite <- !app_assoc. reflexivity.
-  - rewrite <- !app_assoc. reflexivity.
+  - rewrite dict_set_header_key. reflexivity.
+  - reflexivity.
 Qed.
 
 Theorem forward_of_parsed_gen cfg tunnel p :
@@ -283,4 +286,343 @@ Proof.
     + unfold forward_of_parsed, forwarded_fields, drop_disabled, path_or_slash. fold hs. rewrite Sm, Sv, Sp, W2. reflexivity.
     + split; [repeat split; tauto|]. split; [now apply (lift_hdr_inv _ (with_via cfg (drop_hop hs)))|].
       unfold fields_of_parser at 1. rewrite E2. apply view_lift.
+Qed.
+
+(* ===================================================================================== *)
+(* B. parsing the rendering of a well-formed request                                      *)
+
+Lemma forallb_In' {A} (f : A -> bool) l : forallb f l = true -> forall x, In x l -> f x = true.
+Proof. intros H x Hx. exact (forallb_In f l x H Hx). Qed.
+
+Lemma is_tchar_facts x : is_tchar x = true -> is_ws x = false /\ x <> COLON /\ x <> CR /\ x <> LF /\ x <> SP.
+Proof.
+  unfold is_tchar, is_digit, is_alpha, is_upper, is_lower, is_ws, COLON, CR, LF, SP. intros H.
+  repeat (apply orb_true_iff in H; destruct H as [H|H]);
+    repeat match goal with
+    | H : _ && _ = true |- _ => apply andb_true_iff in H; destruct H
+    | H : (_ <=? _) = true |- _ => apply N.leb_le in H
+    | H : (_ =? _) = true |- _ => apply N.eqb_eq in H
+    end;
+    (split; [apply orb_false_iff; split; [apply N.eqb_neq; lia|apply andb_false_iff; first [left; apply N.leb_gt; lia|right; apply N.leb_gt; lia]]|]);
+    repeat split; lia.
+Qed.
+
+Lemma is_field_byte_facts x : is_field_byte x = true -> x <> CR /\ x <> LF.
+Proof.
+  unfold is_field_byte, CR, LF. intros H. apply andb_true_iff in H as [_ H]. apply negb_true_iff, andb_false_iff in H.
+  destruct H as [H|H]; [apply N.leb_gt in H|apply N.leb_gt in H]; split; lia.
+Qed.
+
+Lemma is_ows_facts x : is_ows x = true -> is_ws x = true /\ x <> CR /\ x <> LF /\ is_field_byte x = true.
+Proof.
+  unfold is_ows, is_ws, is_field_byte, CR, LF. intros H. apply orb_true_iff in H as [H|H]; apply N.eqb_eq in H; subst; repeat split; lia.
+Qed.
+
+Lemma token_facts n : is_token n = true ->
+  n <> [] /\ (forall x, In x n -> is_ws x = false) /\ ~ In COLON n /\ ~ In CR n /\ ~ In LF n /\ ~ In SP n.
+Proof.
+  unfold is_token. intros H. apply andb_true_iff in H as [Hne Ht]. split; [now apply nonempty_ne|].
+  pose proof (forallb_In' _ _ Ht) as F.
+  repeat split; try (intros x Hx; now apply is_tchar_facts, F); intros Hi; apply F, is_tchar_facts in Hi; tauto.
+Qed.
+
+Lemma rfc_value_facts v : rfc_value v = true -> strip v = v /\ ~ In CR v /\ ~ In LF v.
+Proof.
+  unfold rfc_value. intros H. apply andb_true_iff in H as [Hf Hs]. split; [now apply stripped_strip|].
+  pose proof (forallb_In' _ _ Hf) as F. split; intros Hi; apply F, is_field_byte_facts in Hi; tauto.
+Qed.
+
+Section Field.
+  Variable f : hfield.
+  Hypothesis W : wf_field f = true.
+
+  Lemma wf_field_parts : is_token (hf_name f) = true /\ forallb is_ows (hf_pre f) = true /\
+                         rfc_value (hf_value f) = true /\ forallb is_ows (hf_post f) = true.
+  Proof.
+    unfold wf_field in W. apply andb_true_iff in W as [W1 W4]. apply andb_true_iff in W1 as [W1 W3].
+    apply andb_true_iff in W1 as [W1 W2]. tauto.
+  Qed.
+  Lemma ows_ws l : forallb is_ows l = true -> forallb is_ws l = true.
+  Proof. intros H. apply forallb_forall. intros x Hx. now apply is_ows_facts, (forallb_In' _ _ H). Qed.
+
+  Lemma field_hdr_ok : hdr_ok (field_nv f).
+  Proof.
+    destruct wf_field_parts as (Wn & Wpre & Wv & Wpost). 
+    destruct (token_facts _ Wn) as (N1 & N2 & N3 & N4 & _). destruct (rfc_value_facts _ Wv) as (V1 & V2 & _).
+    unfold hdr_ok, field_nv. cbn [fst snd]. repeat split; try assumption. now apply strip_noop.
+  Qed.
+
+  Lemma strip_padded : strip (hf_pre f ++ hf_value f ++ hf_post f) = hf_value f.
+  Proof.
+    destruct wf_field_parts as (Wn & Wpre & Wv & Wpost). 
+    unfold strip. rewrite lstrip_app_ws by (apply ows_ws, Wpre).
+    pose proof Wv as Hv. unfold rfc_value in Hv. apply andb_true_iff in Hv as [_ Hs].
+    destruct (hf_value f) as [|x t] eqn:Ev.
+    - cbn [app]. replace (hf_post f) with (hf_post f ++ []) by apply app_nil_r.
+      rewrite lstrip_app_ws by (apply ows_ws, Wpost). reflexivity.
+    - unfold stripped in Hs. apply andb_true_iff in Hs as [H1 H2]. apply negb_true_iff in H1, H2.
+      cbn [app]. rewrite lstrip_cons_nws by exact H1. change (x :: t ++ hf_post f) with ((x :: t) ++ hf_post f).
+      rewrite rstrip_app_ws by (apply ows_ws, Wpost). apply rstrip_nws; [discriminate|exact H2].
+  Qed.
+
+  Lemma hdr_kv_field : hdr_kv (render_field f) = field_nv f.
+  Proof.
+    destruct wf_field_parts as (Wn & Wpre & Wv & Wpost). 
+    destruct (token_facts _ Wn) as (N1 & N2 & N3 & _). unfold hdr_kv, render_field. cbn [app].
+    rewrite (split_once_byte_notin COLON (hf_name f) _ N3). rewrite strip_padded, (strip_noop _ N2). reflexivity.
+  Qed.
+
+  Lemma field_no_cr : ~ In CR (render_field f).
+  Proof.
+    destruct wf_field_parts as (Wn & Wpre & Wv & Wpost). 
+    destruct (token_facts _ Wn) as (_ & _ & _ & N4 & _). destruct (rfc_value_facts _ Wv) as (_ & V2 & _).
+    unfold render_field. rewrite !in_app_iff. cbn [In]. intros [H|[[H|[]]|[H|[H|H]]]]; try contradiction; try discriminate.
+    - apply (forallb_In' _ _ Wpre), is_ows_facts in H. tauto.
+    - apply (forallb_In' _ _ Wpost), is_ows_facts in H. tauto.
+  Qed.
+
+  Lemma field_nonblank : match strip (render_field f) with [] => true | _ => false end = false.
+  Proof.
+    destruct wf_field_parts as (Wn & Wpre & Wv & Wpost). 
+    destruct (token_facts _ Wn) as (N1 & N2 & _). destruct (hf_name f) as [|x t] eqn:En; [congruence|].
+    assert (Hin : In x (strip (render_field f))).
+    { apply In_strip; [unfold render_field; rewrite En; now left|apply N2; now left]. }
+    destruct (strip (render_field f)); [destruct Hin|reflexivity].
+  Qed.
+
+  (* one header line: the optional whitespace is invisible to the parser *)
+  Lemma hdr_step_field p : hdr_step p (render_field f) = hdr_step p (render_hdr (field_nv f)).
+  Proof.
+    unfold hdr_step. rewrite field_nonblank, (hdr_ok_nonblank _ field_hdr_ok).
+    rewrite !process_header_eq. rewrite hdr_kv_field, (hdr_kv_render _ field_hdr_ok). reflexivity.
+  Qed.
+End Field.
+
+Lemma render_fields_cons f fs : render_fields (f :: fs) = (render_field f ++ CRLF) ++ render_fields fs.
+Proof. reflexivity. Qed.
+
+Lemma hdr_step_nonblank_state p line p' : st23 p -> match strip line with [] => true | _ => false end = false ->
+  hdr_step p line = Ok p' -> state p' = RCVING_HEADERS.
+Proof.
+  intros S B. unfold hdr_step. rewrite (st23_test p S), B. intros H. apply process_header_state in H. exact H.
+Qed.
+
+Lemma PH_fields fs : forall p more, st23 p -> forallb wf_field fs = true -> more <> [] ->
+  PH p (render_fields fs ++ more) = PH p (render_hdrs (map field_nv fs) ++ more).
+Proof.
+  induction fs as [|f fs IH]; intros p more S W Hm; [reflexivity|].
+  cbn [forallb] in W. apply andb_true_iff in W as [Wf Wfs].
+  rewrite render_fields_cons. cbn [map]. change (render_hdrs (field_nv f :: map field_nv fs))
+    with ((render_hdr (field_nv f) ++ CRLF) ++ render_hdrs (map field_nv fs)).
+  rewrite <- !app_assoc. rewrite (PH_step p (render_field f ++ _)), (PH_step p (render_hdr (field_nv f) ++ _)).
+  rewrite (crlf_free_split _ _ (crlf_free_cr _ (field_no_cr f Wf))).
+  rewrite (crlf_free_split _ _ (hdr_ok_free _ (field_hdr_ok f Wf))).
+  rewrite (hdr_step_field f Wf p).
+  destruct (hdr_step p (render_hdr (field_nv f))) as [p'|e] eqn:E; cbn [bind]; [|reflexivity].
+  assert (S' : state p' = RCVING_HEADERS).
+  { eapply hdr_step_nonblank_state; [exact S|apply (hdr_ok_nonblank _ (field_hdr_ok f Wf))|exact E]. }
+  assert (N1 : nz (render_fields fs ++ more) = true) by (apply nz_app_r; exact Hm).
+  assert (N2 : nz (render_hdrs (map field_nv fs) ++ more) = true) by (apply nz_app_r; exact Hm).
+  rewrite N1, N2, S'. cbn [negb orb]. change (RCVING_HEADERS =? HEADERS_COMPLETE) with false. cbv iota.
+  apply IH; [right; exact S'|exact Wfs|exact Hm].
+Qed.
+
+(* the whole message: only total_size sees the optional whitespace *)
+Lemma parse_spacing al sl fs wire :
+  start_ok al sl -> (match sl with ReqLine _ _ _ _ => true | StatusLine _ _ _ => false end) = true ->
+  forallb wf_field fs = true ->
+  let spaced := render_start sl ++ CRLF ++ render_fields fs ++ CRLF ++ wire in
+  let canon := render_start sl ++ CRLF ++ render_hdrs (map field_nv fs) ++ CRLF ++ wire in
+  parse_with al (new_parser REQUEST_PARSER) spaced =
+  do p <- parse_with al (new_parser REQUEST_PARSER) canon; Ok (set_buffer_size p (buffer p) (len spaced)).
+Proof.
+  intros Hs Hreq W spaced canon. set (p0 := new_parser REQUEST_PARSER).
+  assert (I0 : pinv p0) by apply pinv_new.
+  rewrite !parse_with_alt by exact I0. change (bufb p0) with (@nil N). cbn [app].
+  assert (Ns : nz spaced = true) by (apply nz_true; unfold spaced; destruct (render_start sl); discriminate).
+  assert (Nc : nz canon = true) by (apply nz_true; unfold canon; destruct (render_start sl); discriminate).
+  rewrite Ns, Nc.
+  enough (E : PL al true p0 spaced = PL al true p0 canon).
+  { rewrite E. destruct (PL al true p0 canon) as [[r p']|e]; reflexivity. }
+  unfold spaced, canon.
+  rewrite !PL_step_true; try exact I0; try discriminate.
+  rewrite !proc_line by reflexivity.
+  rewrite !(process_line_render al p0 sl _ Hs) by (destruct sl; [reflexivity|discriminate]).
+  cbn [bind]. set (p2 := after_line p0 sl).
+  assert (I2 : pinv p2) by (apply after_line_inv; [exact I0|reflexivity]).
+  assert (S2 : st23 p2) by (left; unfold p2; destruct sl; reflexivity).
+  rewrite !maybe_complete_not4 by (unfold p2; destruct sl; cbn [after_line state set_line]; discriminate).
+  assert (M : CRLF ++ wire <> []) by discriminate.
+  rewrite (nz_app_r (render_fields fs) _ M), (nz_app_r (render_hdrs (map field_nv fs)) _ M).
+  rewrite !PL_step_true; try exact I2; try (destruct S2 as [X|X]; rewrite X; discriminate).
+  rewrite !proc_headers by exact S2.
+  rewrite (PH_fields fs p2 (CRLF ++ wire) S2 W M). reflexivity.
+Qed.
+
+(* ---- a well-formed request is a message of the C03 grammar (up to the optional whitespace) ---- *)
+Definition to_framing (f : rframing) : framing :=
+  match f with
+  | RNone => FNone
+  | RLength h data => FLength (hf_name h) (hf_value h) data
+  | RChunked h s => FChunked (hf_name h) (hf_value h) (stream_of s)
+  end.
+Definition to_msg (r : request) (u : url) : message :=
+  {| m_start := ReqLine (q_method r) (render_target (q_target r)) (q_version r) u;
+     m_hs1 := map field_nv (q_hs1 r); m_framing := to_framing (q_framing r); m_hs2 := map field_nv (q_hs2 r) |}.
+
+Record wf_parts (r : request) : Prop := {
+  wp_method : is_token (q_method r) = true;
+  wp_not_connect : bytes_eqb (q_method r) CONNECT = false;
+  wp_abs : is_absolute (q_target r) = true;
+  wp_target : wf_target (q_target r) = true;
+  wp_vchar : forallb is_vchar (render_target (q_target r)) = true;
+  wp_port : (0 < target_port (q_target r) <= 65535)%Z;
+  wp_version : q_version r = HTTP_1_1 \/ q_version r = HTTP_1_0;
+  wp_hs1 : forallb other_field (q_hs1 r) = true;
+  wp_hs2 : forallb other_field (q_hs2 r) = true;
+  wp_nodup : nodup_ci (map hf_name (all_fields r)) = true;
+  wp_framing : wf_framing (q_framing r) = true }.
+
+Lemma wf_request_parts r : wf_request r = true -> wf_parts r.
+Proof.
+  unfold wf_request. intros H.
+  apply andb_true_iff in H as [H H12]. apply andb_true_iff in H as [H H11]. apply andb_true_iff in H as [H H10].
+  apply andb_true_iff in H as [H H9]. apply andb_true_iff in H as [H H8]. apply andb_true_iff in H as [H H7].
+  apply andb_true_iff in H as [H H6]. apply andb_true_iff in H as [H H5]. apply andb_true_iff in H as [H H4].
+  apply andb_true_iff in H as [H H3]. apply andb_true_iff in H as [H1 H2].
+  constructor; try assumption.
+  - now apply negb_true_iff in H2.
+  - apply Z.ltb_lt in H6. apply Z.leb_le in H7. lia.
+  - apply orb_true_iff in H8 as [E|E]; apply bytes_eqb_eq in E; tauto.
+Qed.
+
+Lemma is_vchar_facts x : is_vchar x = true -> x <> SP /\ x <> CR /\ x <> LF.
+Proof. unfold is_vchar, SP, CR, LF. intros H. apply andb_true_iff in H as [H1 H2]. apply N.leb_le in H1, H2. repeat split; lia. Qed.
+
+Lemma version_facts v : v = HTTP_1_1 \/ v = HTTP_1_0 -> ~ In CR v /\ ~ In LF v /\ ~ In SP v /\ is_http_version v = true.
+Proof.
+  intros [-> | ->]; (split; [|split; [|split; [|reflexivity]]]); intros Hi;
+    match goal with Hi : In ?c ?l |- _ =>
+      assert (F : forallb (fun x => negb (x =? c)) l = true) by reflexivity;
+      pose proof (forallb_In' _ _ F _ Hi) as C; vm_compute in C; discriminate C end.
+Qed.
+
+Lemma other_field_parts f : other_field f = true ->
+  wf_field f = true /\ lower (hf_name f) <> CONTENT_LENGTH /\ lower (hf_name f) <> TRANSFER_ENCODING.
+Proof.
+  unfold other_field, name_is. intros H. apply andb_true_iff in H as [H H3]. apply andb_true_iff in H as [H1 H2].
+  apply negb_true_iff in H2, H3. split; [exact H1|]. split; intros C; rewrite C, bytes_eqb_refl in *; discriminate.
+Qed.
+
+Lemma others_other_ok fs : forallb other_field fs = true -> Forall other_ok (map field_nv fs) /\ forallb wf_field fs = true.
+Proof.
+  induction fs as [|f fs IH]; intros H; [split; [constructor|reflexivity]|].
+  cbn [forallb] in H. apply andb_true_iff in H as [Hf Hfs]. destruct (IH Hfs) as [I1 I2].
+  destruct (other_field_parts f Hf) as (W & N1 & N2). split.
+  - cbn [map]. constructor; [|exact I1]. split; [now apply field_hdr_ok|]. split; assumption.
+  - cbn [forallb]. now rewrite W, I2.
+Qed.
+
+Lemma wf_framing_parts fr : wf_framing fr = true ->
+  ParserFacts.framing_ok (to_framing fr) /\ forallb wf_field (framing_fields fr) = true.
+Proof.
+  destruct fr as [|h data|h s]; cbn [wf_framing to_framing ParserFacts.framing_ok framing_fields forallb]; intros H.
+  - split; [exact I|reflexivity].
+  - apply andb_true_iff in H as [H H6]. apply andb_true_iff in H as [H H5]. apply andb_true_iff in H as [H H4].
+    apply andb_true_iff in H as [H H3]. apply andb_true_iff in H as [H1 H2].
+    split; [|now rewrite H1]. split; [exact (field_hdr_ok h H1)|]. split; [now apply bytes_eqb_eq in H2|].
+    rewrite int10_digits; [|now apply nonempty_ne|exact H4|now apply Nat.leb_le in H5].
+    apply N.eqb_eq in H6. rewrite H6, len_Z. reflexivity.
+  - apply andb_true_iff in H as [H H4]. apply andb_true_iff in H as [H H3]. apply andb_true_iff in H as [H1 H2].
+    split; [|now rewrite H1]. split; [exact (field_hdr_ok h H1)|]. split; [now apply bytes_eqb_eq in H2|].
+    split; [now apply bytes_eqb_eq in H3|now apply wf_chunked_stream_ok].
+Qed.
+
+Lemma all_fields_nv r u : all_hdrs (to_msg r u) = map field_nv (all_fields r).
+Proof.
+  unfold all_hdrs, to_msg, all_fields. cbn [m_hs1 m_framing m_hs2]. rewrite !map_app. f_equal. f_equal.
+  destruct (q_framing r); reflexivity.
+Qed.
+
+Lemma lkeys_fields fs : lkeys (map field_nv fs) = map lower (map hf_name fs).
+Proof. unfold lkeys. rewrite !map_map. reflexivity. Qed.
+
+Lemma nodup_fields r : wf_parts r -> NoDup (lkeys (map field_nv (all_fields r))).
+Proof.
+  intros P. apply nodup_ci_NoDup. rewrite map_map. cbn [field_nv fst]. exact (wp_nodup r P).
+Qed.
+
+Lemma message_ok_of al r u : wf_parts r -> from_bytes al (render_target (q_target r)) = Ok u ->
+  message_ok al (to_msg r u) /\ forallb wf_field (all_fields r) = true.
+Proof.
+  intros P Hu. destruct (others_other_ok _ (wp_hs1 r P)) as [O1 W1]. destruct (others_other_ok _ (wp_hs2 r P)) as [O2 W2].
+  destruct (wf_framing_parts _ (wp_framing r P)) as [Of Wf]. split.
+  - unfold message_ok, to_msg. cbn [m_start m_hs1 m_framing m_hs2 start_ok]. repeat split; try assumption.
+    + apply (token_facts _ (wp_method r P)).
+    + apply (token_facts _ (wp_method r P)).
+    + intros Hi. apply (forallb_In' _ _ (wp_vchar r P)), is_vchar_facts in Hi. tauto.
+    + intros Hi. apply (forallb_In' _ _ (wp_vchar r P)), is_vchar_facts in Hi. tauto.
+    + apply (version_facts _ (wp_version r P)).
+  - unfold all_fields. rewrite !forallb_app. now rewrite W1, W2, Wf.
+Qed.
+
+(* what the parser holds after the whole request *)
+Definition body_of_framing (f : rframing) : option bytes :=
+  match f with RNone => None | RLength _ d => optb d | RChunked _ s => Some (ref_dechunk s) end.
+Definition chunked_framing (f : rframing) : bool := match f with RChunked _ _ => true | _ => false end.
+
+Record parsed_as (r : request) (p : parser) : Prop := {
+  pa_state : state p = COMPLETE;
+  pa_buffer : buffer p = None;
+  pa_ty : ty p = REQUEST_PARSER;
+  pa_method : method p = Some (q_method r);
+  pa_version : version p = Some (q_version r);
+  pa_purl : exists u, purl p = Some u;
+  pa_tunnel : is_https_tunnel p = false;
+  pa_attrs : (Parser.host p, Parser.port p, path p) = UrlSpec.expected false (q_target r);
+  pa_headers : headers p = lift_headers (map field_nv (all_fields r));
+  pa_body : body p = body_of_framing (q_framing r);
+  pa_chunked : is_chunked_encoded p = chunked_framing (q_framing r) }.
+
+Lemma render_request_start r u :
+  render_request r =
+  render_start (m_start (to_msg r u)) ++ CRLF ++ render_fields (all_fields r) ++ CRLF ++ framing_wire (q_framing r).
+Proof.
+  unfold render_request, to_msg. cbn [m_start render_start]. rewrite <- app_assoc. cbn [app].
+  rewrite <- app_assoc. cbn [app]. reflexivity.
+Qed.
+
+Lemma framing_wire_bytes fr : framing_bytes (to_framing fr) = framing_wire fr.
+Proof. destruct fr as [|h d|h s]; cbn [to_framing framing_bytes framing_wire]; [reflexivity|reflexivity|apply render_stream_of]. Qed.
+
+Theorem parse_request r : wf_request r = true ->
+  exists p, parse (new_parser REQUEST_PARSER) (render_request r) = Ok p /\ parsed_as r p.
+Proof.
+  intros W. pose proof (wf_request_parts r W) as P.
+  pose proof (derive_roundtrip false _ (wp_target r P)) as D. unfold derive in D.
+  destruct (from_bytes DEFAULT_ALLOWED_URL_SCHEMES (render_target (q_target r))) as [u|e] eqn:Hu; cbn [bind] in D; [|discriminate].
+  assert (La : line_attributes false u = UrlSpec.expected false (q_target r)) by congruence.
+  destruct (message_ok_of _ r u P Hu) as [Hm Wf]. set (m := to_msg r u) in *.
+  assert (Ht : tail_ok m []) by (unfold tail_ok; cbn; exact I).
+  pose proof (complete_at_end _ m [] Hm Ht) as C. rewrite app_nil_r in C.
+  unfold parse. rewrite (render_request_start r u). fold m.
+  rewrite (parse_spacing DEFAULT_ALLOWED_URL_SCHEMES (m_start m) (all_fields r) (framing_wire (q_framing r)));
+    [|apply Hm|reflexivity|exact Wf].
+  assert (Er : render_start (m_start m) ++ CRLF ++ render_hdrs (map field_nv (all_fields r)) ++ CRLF ++ framing_wire (q_framing r)
+               = render m).
+  { unfold render. rewrite (all_fields_nv r u). unfold m at 3, to_msg. cbn [m_framing]. now rewrite framing_wire_bytes. }
+  rewrite Er. change (msg_type m) with REQUEST_PARSER in C. rewrite C. cbn [bind].
+  eexists. split; [reflexivity|].
+  destruct (expected_fields m []) as (F1 & F2 & _ & F4 & F5 & F6).
+  unfold m at 1, to_msg in F6. cbn [m_start] in F6. destruct F6 as (G1 & G2 & G3 & G4 & G5 & _).
+  rewrite (wp_not_connect r P) in G4, G5.
+  constructor; cbn [state buffer ty method version purl is_https_tunnel Parser.host Parser.port path headers body
+                    is_chunked_encoded set_buffer_size]; try assumption.
+  - exact (expected_ty m []).
+  - exists u. exact G2.
+  - rewrite G5. exact La.
+  - rewrite F4, (all_fields_nv r u). apply add_all_lift, nodup_fields, P.
+  - rewrite F5. unfold m, to_msg. cbn [m_framing]. destruct (q_framing r) as [|h d|h s]; cbn [to_framing body_of_framing];
+      [reflexivity|reflexivity|now rewrite stream_body_of].
+  - rewrite expected_chunked. unfold m, to_msg. cbn [m_framing]. destruct (q_framing r); reflexivity.
 Qed.
